@@ -9,11 +9,12 @@
    Known(e) = the type the function declares for e in either place.
    Run(cfg), cfg = [style, ann]:
        sig'[e] = Known(e) if cfg.ann else "none"
-       doc'[e] = Known(e) unless the types went to the signature -- except that the Google style ALWAYS writes types
+       doc'[e] = Known(e) unless the types went to the signature -- except that the Google style ALWAYS writes types, and the NumPy
+                 style always writes the RETURN type (its type line is all a NumPy return entry has for a name line)
        style'  = cfg.style;   rev' = rev + 1 iff anything changed
    Properties:  NoTypeLost    Known'(e) = Known(e)                                  (an action property)
                 Moved         after Run(cfg) every known type is where cfg wants it
-                OnePlace      ... and only there (Google excepted: it keeps a copy in the docstring)
+                OnePlace      ... and only there (Google, and NumPy's return entry, excepted: they keep a copy in the docstring)
                 Idempotent    a second Run(cfg) changes nothing: rev stays                (an action property)
    As built TLC must find two of them violated: Idempotent (a docstring rewritten in the Google style drifts: every further run re-indents
    it again and re-reads a written return type into the return description) and NoTypeLost (`-> bool` on a function that returns an
@@ -54,7 +55,8 @@ Forgets(e) == AsBuilt /\ e = "ret" /\ retexpr /\ sig[e] = "T" /\ doc[e] = "none"
 IrKnows(e) == IF Forgets(e) THEN "none" ELSE Known(e)
 \* (a forgotten type is not written anywhere new; with --type-annotations the old annotation is simply left where it is)
 WantSig(e, c) == IF c.ann THEN (IF Forgets(e) THEN sig[e] ELSE Known(e)) ELSE "none"
-WantDoc(e, c) == IF c.ann /\ c.style # "google" THEN "none" ELSE IrKnows(e)
+KeepsCopy(e, st) == st = "google" \/ (st = "numpydoc" /\ e = "ret")
+WantDoc(e, c) == IF c.ann /\ ~KeepsCopy(e, c.style) THEN "none" ELSE IrKnows(e)
 \* as built the Google style is not a fixpoint: a run MAY rewrite a Google docstring that needs no change -- re-indenting it once more and
 \* re-reading a written return type `bool:` into the return description.  Whether it does depends on details below this abstraction (is there
 \* a Returns section, was the docstring rewritten by the previous run), so the as-built machine is nondeterministic here
@@ -69,7 +71,7 @@ Spec == Init /\ [][Run]_vars
 
 NoTypeLost == [][\A e \in Entries : (IF sig'[e] = "T" \/ doc'[e] = "T" THEN "T" ELSE "none") = Known(e)]_vars
 Moved == runs >= 1 => \A e \in Entries : Known(e) = "T" => (IF cfg.ann THEN sig[e] = "T" ELSE doc[e] = "T")
-OnePlace == runs >= 1 => \A e \in Entries : ~(sig[e] = "T" /\ doc[e] = "T" /\ style # "google")
+OnePlace == runs >= 1 => \A e \in Entries : ~(sig[e] = "T" /\ doc[e] = "T" /\ ~KeepsCopy(e, style))
 Idempotent == [][runs >= 1 => rev' = rev]_vars
 Dump == runs = MaxRuns => PrintT(ToJson([lay |-> lay, from |-> from, retexpr |-> retexpr, cfg |-> cfg, sig |-> sig, doc |-> doc, rev |-> rev]))
 =====================================================================================
